@@ -44,6 +44,9 @@ def loop_programs(seed, n):
                                   ("PUSH", 3), "ADD", ("PUSH", 2), "SSTORE", ("PUSHL", "t"), "JUMP", ("LABEL", "e"), ("PUSH", 2), "SLOAD"] + R,
         "do-while": cd0 + [("PUSH", 7), "AND", "PUSH0", ("LABEL", "t"), ("PUSH", 5), "ADD", "SWAP1", ("PUSH", 1), "SWAP1", "SUB", "SWAP1",
                            "DUP2", ("PUSHL", "t"), "JUMPI", "SWAP1", "POP"] + R,
+        # old-solc `throw` style guard: the loop is left by a JUMPI to a non-JUMPDEST (exceptional halt)
+        "throw-guard": cd0 + [("PUSH", 7), "AND", "PUSH0", ("LABEL", "t"), "DUP2", "DUP2", "LT", "ISZERO", ("PUSH", 2), "JUMPI", ("PUSH", 1), "ADD",
+                              ("PUSHL", "t"), "JUMP"],
         "two-loops": cd0 + [("PUSH", 3), "AND", "PUSH0", ("LABEL", "a"), "DUP2", "DUP2", "LT", "ISZERO", ("PUSHL", "ae"), "JUMPI", ("PUSH", 1),
                             "ADD", ("PUSHL", "a"), "JUMP", ("LABEL", "ae"), "SWAP1", "POP", ("PUSH", 36), "CALLDATALOAD", ("PUSH", 3), "AND",
                             "PUSH0", ("LABEL", "b"), "DUP2", "DUP2", "LT", "ISZERO", ("PUSHL", "be"), "JUMPI", ("PUSH", 1), "ADD",
